@@ -433,12 +433,36 @@ def place_ty_guess(body, pl):
     return None
 
 
-def infeasible(fs):
+def _is_new_enum(adt):
+    from . import inline
+    return inline._is_new_enum(adt)
+
+
+def infeasible(fs, adts=None, new_enums_only=True):
     """facts (dominating edges) that contradict each other: the block lies only on paths no execution takes (left-overs of
     jump threading / inlining)"""
     seen = {}
+    if adts is not None:
+        # a private status enum built on this path as W (the decided test `Enum::W{..} is W`) and tested later, through the variable
+        # it was stored in, as another variant V of the same enum: the path went through the W definition, so that arm is not taken
+        built = {}
+        for f in fs:
+            e_ = f.get("expr")
+            if isinstance(e_, tuple) and e_ and e_[0] == "agg" and isinstance(e_[2], str) and str(f["val"]) == e_[2] and e_[1] in adts and adts[e_[1]].get("kind") == "enum":
+                if not new_enums_only or _is_new_enum(e_[1]):
+                    built.setdefault(e_[1], set()).add(e_[2])
+        for f in fs:
+            e_ = f.get("expr")
+            if isinstance(e_, tuple) and e_ and e_[0] == "local" and isinstance(f["val"], str):
+                for a_, ws_ in built.items():
+                    names_ = {v_["name"] for v_ in adts[a_].get("variants", [])}
+                    if f["val"] in names_ and len(ws_) == 1 and f["val"] not in ws_:
+                        return True
     for f in fs:
         v = f["val"]
+        e_ = f.get("expr")
+        if isinstance(v, str) and isinstance(e_, tuple) and e_ and e_[0] == "agg" and isinstance(e_[2], str) and e_[2] != v:
+            return True     # `Ok(x) is Err`: this edge of a test on a freshly built value is never taken
         if not isinstance(v, (str, bool, int)):
             continue
         k = f["expr"]       # structural: two calls of one function are two values (the call site is part of the expression)
